@@ -135,6 +135,13 @@ def specResponse (c : Ctx α ρ) (identity : Ava α) (required optional subj : L
   | .errorResponse => true
   | .raised _ => true
 
+/-- Side condition that delimits the known finding `C10/missing-required-releases-unfiltered`:
+    `apply_policy` raised `MissingValue` (decidable). -/
+def restrictMissing (c : Ctx α ρ) (identity : Ava α) (required optional subj : List (ReqAttr α)) : Bool :=
+  match policyRestrict c identity required optional subj with
+  | .error .missing => true
+  | _ => false
+
 /-! ### pinned facts about the category tables
 
 The category tables are regenerated from the source, so a table edit changes model and
